@@ -247,16 +247,24 @@ impl ElemU for Plain<1> {
 
 /// Same size as Elem<_, ()> (8 bytes) but alignment 8 instead of 4.
 #[repr(align(8))]
-struct A8 {
+struct A8<const K: u8> {
     id: u32,
     payload: u32,
 }
-impl Drop for A8 {
+impl<const K: u8> Drop for A8<K> {
     fn drop(&mut self) {
-        ev(json!({"ev":"drop","k":"U","id":self.id}));
+        ev(json!({"ev":"drop","k": if K == 0 {"T"} else {"U"},"id":self.id}));
     }
 }
-impl ElemU for A8 {
+impl ElemT for A8<0> {
+    fn new(id: u32) -> Self {
+        A8 { id, payload: 0 }
+    }
+    fn id(&self) -> u32 {
+        self.id
+    }
+}
+impl ElemU for A8<1> {
     fn new(id: u32) -> Self {
         A8 { id, payload: 0 }
     }
@@ -424,7 +432,11 @@ fn dispatch(sc: &Value, out: &mut Vec<String>) {
         "plain_to_drop" => run::<Plain<0>, Elem<1, ()>>(sc, out),
         // refused pairs
         "mm_size" => run::<Elem<0, ()>, Elem<1, u64>>(sc, out),
-        "mm_align" => run::<Elem<0, ()>, A8>(sc, out),
+        "mm_align" => run::<Elem<0, ()>, A8<1>>(sc, out),
+        // the same mismatches in the other direction (input larger / more aligned than output)
+        "mm_align_down" => run::<A8<0>, Elem<1, ()>>(sc, out),
+        "mm_size_down" => run::<Elem<0, u64>, Elem<1, ()>>(sc, out),
+        "mm_both_down" => run::<Elem<0, Align64>, Elem<1, ()>>(sc, out),
         "mm_both" => run::<Elem<0, ()>, Elem<1, Align64>>(sc, out),
         "mm_zst_in" => run::<Zst<0>, Elem<1, ()>>(sc, out),
         "mm_zst_out" => run::<Elem<0, ()>, Zst<1>>(sc, out),
